@@ -3,8 +3,12 @@
    Part 1 — reference counting and delivery.  One model event = one atomic step of the real code
    (a channel operation, a WaitGroup operation, or a critical section of l.mu):
 
-     SessionUp      listenLoop's per-connection goroutine: under l.mu, if l.closed = 1 the session is
-                    closed on the spot, else wg.Add(1); l.sessions[session] = wg
+     RawAccept      listenLoop: the raw listener accepted a connection; its goroutine starts the handshake
+                    Server(conn, DefaultConfig()), which blocks until the client has spoken (<= 1 s)
+     HandshakeFail  that handshake failed / timed out: no session
+     SessionUp      the handshake returned a session; THEN, under l.mu: if l.closed = 1 the session is closed
+                    on the spot, else wg.Add(1); l.sessions[session] = wg  (test and insert in ONE critical
+                    section: listener.Close cannot fall between them)
      StreamIn s     the event loop of session s puts a new stream into acceptCh (session.go getStream)
      Wrap s         AcceptStream returned a stream; under l.mu: if the session is still in l.sessions
                     newStreamWrapper: wg.Add(1); else stream.Close() and return
@@ -74,6 +78,7 @@ Record state := {
   lmark : bool;              (* l.closed *)
   closeCh : bool;            (* l.closeCh is closed *)
   lreleased : bool;          (* ghost: some Close call has run its release section *)
+  hs_pending : nat;          (* raw connections accepted whose handshake (Server(conn, ...)) is still running *)
   panic : bool }.
 
 Definition dflt_sess : sess :=
@@ -85,7 +90,7 @@ Definition init (c : nat) : state :=
   {| nsess := 0; sess_of := fun _ => dflt_sess; nwr := 0; wr := fun _ => dflt_wr;
      ncl := 0; cl_of := fun _ => CDone; cap := c;
      backlog := []; delivered := []; closing := []; aclosed := []; enq_log := []; recv_log := [];
-     lmark := false; closeCh := false; lreleased := false; panic := false |}.
+     lmark := false; closeCh := false; lreleased := false; hs_pending := 0; panic := false |}.
 
 Definition updf {A} (f : nat -> A) (k : nat) (v : A) : nat -> A :=
   fun i => if Nat.eqb i k then v else f i.
@@ -103,7 +108,7 @@ Definition set_sessions (st : state) (f : nat -> sess) (p : bool) : state :=
   {| nsess := nsess st; sess_of := f; nwr := nwr st; wr := wr st; ncl := ncl st; cl_of := cl_of st; cap := cap st;
      backlog := backlog st; delivered := delivered st; closing := closing st; aclosed := aclosed st;
      enq_log := enq_log st; recv_log := recv_log st; lmark := lmark st; closeCh := closeCh st; lreleased := lreleased st;
-     panic := panic st || p |}.
+     hs_pending := hs_pending st; panic := panic st || p |}.
 Definition set_sess (st : state) (s : nat) (x : sess) (p : bool) : state :=
   set_sessions st (updf (sess_of st) s x) p.
 Definition set_cl (st : state) (k : nat) (c : close_pc) : state :=
@@ -111,7 +116,7 @@ Definition set_cl (st : state) (k : nat) (c : close_pc) : state :=
      cl_of := updf (cl_of st) k c; cap := cap st;
      backlog := backlog st; delivered := delivered st; closing := closing st; aclosed := aclosed st;
      enq_log := enq_log st; recv_log := recv_log st; lmark := lmark st; closeCh := closeCh st; lreleased := lreleased st;
-     panic := panic st |}.
+     hs_pending := hs_pending st; panic := panic st |}.
 (* receive the head of the backlog and take it aside for Close *)
 Definition take_head (st : state) : state :=
   match backlog st with
@@ -120,15 +125,22 @@ Definition take_head (st : state) : state :=
     {| nsess := nsess st; sess_of := sess_of st; nwr := nwr st; wr := wr st; ncl := ncl st; cl_of := cl_of st; cap := cap st;
        backlog := r; delivered := delivered st; closing := closing st ++ [w]; aclosed := aclosed st;
        enq_log := enq_log st; recv_log := recv_log st ++ [w]; lmark := lmark st; closeCh := closeCh st; lreleased := lreleased st;
-       panic := panic st |}
+       hs_pending := hs_pending st; panic := panic st |}
   end.
+
+Definition set_hs (st : state) (n : nat) : state :=
+  {| nsess := nsess st; sess_of := sess_of st; nwr := nwr st; wr := wr st; ncl := ncl st; cl_of := cl_of st; cap := cap st;
+     backlog := backlog st; delivered := delivered st; closing := closing st; aclosed := aclosed st;
+     enq_log := enq_log st; recv_log := recv_log st; lmark := lmark st; closeCh := closeCh st; lreleased := lreleased st;
+     hs_pending := n; panic := panic st |}.
 
 Inductive event :=
 | SessionUp | StreamIn (s : nat) | Wrap (s : nat) | Enqueue (s : nat) | Lose (s : nat)
 | PostCheck (s : nat) | GDrain (s : nat)
 | SessionDie (s : nat) | AcceptErr (s : nat)
 | Accept | AcceptFail | WClose (w : nat) | CloseTaken (w : nat)
-| LCall | LStep (k : nat).
+| LCall | LStep (k : nat)
+| RawAccept | HandshakeFail.
 
 Definition mem (w : nat) (l : list nat) : bool := existsb (Nat.eqb w) l.
 Definition remove_w (w : nat) (l : list nat) : list nat := filter (fun x => negb (Nat.eqb x w)) l.
@@ -141,7 +153,7 @@ Definition is_cdone (c : close_pc) : bool := match c with CDone => true | _ => f
 
 Definition enabled (st : state) (e : event) : bool :=
   match e with
-  | SessionUp => true
+  | SessionUp => (0 <? hs_pending st)%nat
   | StreamIn s => (s <? nsess st)%nat && registered (sess_of st s)
   | Wrap s => (s <? nsess st)%nat && is_accepting (loop (sess_of st s)) && (0 <? inq (sess_of st s))%nat
   | Enqueue s => (s <? nsess st)%nat && is_selecting (loop (sess_of st s)) && (length (backlog st) <? cap st)%nat
@@ -156,6 +168,8 @@ Definition enabled (st : state) (e : event) : bool :=
   | CloseTaken w => mem w (closing st)
   | LCall => true
   | LStep k => (k <? ncl st)%nat && negb (is_cdone (cl_of st k))
+  | RawAccept => true
+  | HandshakeFail => (0 <? hs_pending st)%nat
   end.
 
 Definition with_loop (x : sess) (p : loop_pc) : sess :=
@@ -183,7 +197,7 @@ Definition close_wrapper (st : state) (w : nat) : state :=
        ncl := ncl st; cl_of := cl_of st; cap := cap st;
        backlog := backlog st; delivered := delivered st; closing := closing st; aclosed := aclosed st;
        enq_log := enq_log st; recv_log := recv_log st; lmark := lmark st; closeCh := closeCh st; lreleased := lreleased st;
-       panic := panic st || done_panics (sess_of st s) |}.
+       hs_pending := hs_pending st; panic := panic st || done_panics (sess_of st s) |}.
 
 Definition step (st : state) (e : event) : state :=
   match e with
@@ -196,7 +210,7 @@ Definition step (st : state) (e : event) : state :=
     {| nsess := S (nsess st); sess_of := updf (sess_of st) (nsess st) x; nwr := nwr st; wr := wr st;
        ncl := ncl st; cl_of := cl_of st; cap := cap st;
        backlog := backlog st; delivered := delivered st; closing := closing st; aclosed := aclosed st;
-       enq_log := enq_log st; recv_log := recv_log st; lmark := lmark st; closeCh := closeCh st; lreleased := lreleased st; panic := panic st |}
+       enq_log := enq_log st; recv_log := recv_log st; lmark := lmark st; closeCh := closeCh st; lreleased := lreleased st; hs_pending := pred (hs_pending st); panic := panic st |}
   | StreamIn s =>
     let x := sess_of st s in
     set_sess st s {| refs := refs x; in_map := in_map x; registered := registered x; sclosed := sclosed x;
@@ -218,7 +232,7 @@ Definition step (st : state) (e : event) : state :=
        wr := updf (wr st) (nwr st) {| w_sess := s; w_ord := wrapped x; w_closed := false |};
        ncl := ncl st; cl_of := cl_of st; cap := cap st;
        backlog := backlog st; delivered := delivered st; closing := closing st; aclosed := aclosed st;
-       enq_log := enq_log st; recv_log := recv_log st; lmark := lmark st; closeCh := closeCh st; lreleased := lreleased st; panic := panic st |}
+       enq_log := enq_log st; recv_log := recv_log st; lmark := lmark st; closeCh := closeCh st; lreleased := lreleased st; hs_pending := hs_pending st; panic := panic st |}
   | Enqueue s =>
     match loop (sess_of st s) with
     | LSelecting w =>
@@ -226,7 +240,7 @@ Definition step (st : state) (e : event) : state :=
          nwr := nwr st; wr := wr st; ncl := ncl st; cl_of := cl_of st; cap := cap st;
          backlog := backlog st ++ [w]; delivered := delivered st; closing := closing st; aclosed := aclosed st;
          enq_log := enq_log st ++ [w]; recv_log := recv_log st;
-         lmark := lmark st; closeCh := closeCh st; lreleased := lreleased st; panic := panic st |}
+         lmark := lmark st; closeCh := closeCh st; lreleased := lreleased st; hs_pending := hs_pending st; panic := panic st |}
     | _ => st
     end
   | Lose s =>
@@ -236,7 +250,7 @@ Definition step (st : state) (e : event) : state :=
          nwr := nwr st; wr := wr st; ncl := ncl st; cl_of := cl_of st; cap := cap st;
          backlog := backlog st; delivered := delivered st; closing := closing st ++ [w]; aclosed := aclosed st;
          enq_log := enq_log st; recv_log := recv_log st;
-         lmark := lmark st; closeCh := closeCh st; lreleased := lreleased st; panic := panic st |}
+         lmark := lmark st; closeCh := closeCh st; lreleased := lreleased st; hs_pending := hs_pending st; panic := panic st |}
     | _ => st
     end
   | PostCheck s =>
@@ -266,7 +280,7 @@ Definition step (st : state) (e : event) : state :=
       {| nsess := nsess st; sess_of := sess_of st; nwr := nwr st; wr := wr st; ncl := ncl st; cl_of := cl_of st; cap := cap st;
          backlog := r; delivered := delivered st ++ [w]; closing := closing st; aclosed := aclosed st;
          enq_log := enq_log st; recv_log := recv_log st ++ [w];
-         lmark := lmark st; closeCh := closeCh st; lreleased := lreleased st; panic := panic st |}
+         lmark := lmark st; closeCh := closeCh st; lreleased := lreleased st; hs_pending := hs_pending st; panic := panic st |}
     end
   | AcceptFail => st
   | WClose w => close_wrapper st w
@@ -274,12 +288,12 @@ Definition step (st : state) (e : event) : state :=
     let st1 := close_wrapper st w in
     {| nsess := nsess st1; sess_of := sess_of st1; nwr := nwr st1; wr := wr st1; ncl := ncl st1; cl_of := cl_of st1; cap := cap st1;
        backlog := backlog st1; delivered := delivered st1; closing := remove_w w (closing st1); aclosed := aclosed st1 ++ [w];
-       enq_log := enq_log st1; recv_log := recv_log st1; lmark := lmark st1; closeCh := closeCh st1; lreleased := lreleased st1; panic := panic st1 |}
+       enq_log := enq_log st1; recv_log := recv_log st1; lmark := lmark st1; closeCh := closeCh st1; lreleased := lreleased st1; hs_pending := hs_pending st1; panic := panic st1 |}
   | LCall =>
     {| nsess := nsess st; sess_of := sess_of st; nwr := nwr st; wr := wr st;
        ncl := S (ncl st); cl_of := updf (cl_of st) (ncl st) CStart; cap := cap st;
        backlog := backlog st; delivered := delivered st; closing := closing st; aclosed := aclosed st;
-       enq_log := enq_log st; recv_log := recv_log st; lmark := lmark st; closeCh := closeCh st; lreleased := lreleased st; panic := panic st |}
+       enq_log := enq_log st; recv_log := recv_log st; lmark := lmark st; closeCh := closeCh st; lreleased := lreleased st; hs_pending := hs_pending st; panic := panic st |}
   | LStep k =>
     match cl_of st k with
     | CStart =>
@@ -288,12 +302,12 @@ Definition step (st : state) (e : event) : state :=
         {| nsess := nsess st; sess_of := sess_of st; nwr := nwr st; wr := wr st; ncl := ncl st;
            cl_of := updf (cl_of st) k CSig; cap := cap st;
            backlog := backlog st; delivered := delivered st; closing := closing st; aclosed := aclosed st;
-           enq_log := enq_log st; recv_log := recv_log st; lmark := true; closeCh := closeCh st; lreleased := lreleased st; panic := panic st |}
+           enq_log := enq_log st; recv_log := recv_log st; lmark := true; closeCh := closeCh st; lreleased := lreleased st; hs_pending := hs_pending st; panic := panic st |}
     | CSig =>
       {| nsess := nsess st; sess_of := sess_of st; nwr := nwr st; wr := wr st; ncl := ncl st;
          cl_of := updf (cl_of st) k CDrain; cap := cap st;
          backlog := backlog st; delivered := delivered st; closing := closing st; aclosed := aclosed st;
-         enq_log := enq_log st; recv_log := recv_log st; lmark := lmark st; closeCh := true; lreleased := lreleased st; panic := panic st |}
+         enq_log := enq_log st; recv_log := recv_log st; lmark := lmark st; closeCh := true; lreleased := lreleased st; hs_pending := hs_pending st; panic := panic st |}
     | CDrain =>
       match backlog st with
       | [] => set_cl st k CRel
@@ -304,9 +318,11 @@ Definition step (st : state) (e : event) : state :=
          cl_of := updf (cl_of st) k CDone; cap := cap st;
          backlog := backlog st; delivered := delivered st; closing := closing st; aclosed := aclosed st;
          enq_log := enq_log st; recv_log := recv_log st; lmark := lmark st; closeCh := closeCh st; lreleased := true;
-         panic := panic st || release_panics (nsess st) (sess_of st) |}
+         hs_pending := hs_pending st; panic := panic st || release_panics (nsess st) (sess_of st) |}
     | CDone => st
     end
+  | RawAccept => set_hs st (S (hs_pending st))
+  | HandshakeFail => set_hs st (pred (hs_pending st))
   end.
 
 (* an event that is not enabled in the current state does not happen *)
@@ -318,6 +334,25 @@ Fixpoint accepts (st : state) (evs : list event) : bool :=
   | [] => true
   | e :: r => enabled st e && accepts (step st e) r
   end.
+
+(* VARIANT used only to show that the closed-test must sit in the same critical section as the registration,
+   AFTER the handshake (not the code that exists): the test is made when the raw connection is accepted, before
+   the handshake; when the handshake returns the session is registered unconditionally. *)
+Definition step_check_before_handshake (st : state) (e : event) : state :=
+  match e with
+  | RawAccept => if lmark st then st else set_hs st (S (hs_pending st))
+  | SessionUp =>
+    let x := {| refs := 1; in_map := true; registered := true; sclosed := false; wg_zero := false;
+                loop := LAccepting; inq := 0; arrived := 0; wrapped := 0; refused := 0 |} in
+    {| nsess := S (nsess st); sess_of := updf (sess_of st) (nsess st) x; nwr := nwr st; wr := wr st;
+       ncl := ncl st; cl_of := cl_of st; cap := cap st;
+       backlog := backlog st; delivered := delivered st; closing := closing st; aclosed := aclosed st;
+       enq_log := enq_log st; recv_log := recv_log st; lmark := lmark st; closeCh := closeCh st; lreleased := lreleased st;
+       hs_pending := pred (hs_pending st); panic := panic st |}
+  | _ => step st e
+  end.
+Definition run_check_before_handshake (evs : list event) (st : state) : state :=
+  fold_left (fun a e => if enabled a e then step_check_before_handshake a e else a) evs st.
 
 (* VARIANT used only to show that the CAS in streamWrapper.Close is essential (not the code that exists):
    Close split into  check `closed == 0`  /  stream.Close()  /  `closed = 1`; wg.Done().  Two goroutines
@@ -331,7 +366,7 @@ Definition wclose_finish (st : state) (w : nat) : state :=
      ncl := ncl st; cl_of := cl_of st; cap := cap st;
      backlog := backlog st; delivered := delivered st; closing := closing st; aclosed := aclosed st;
      enq_log := enq_log st; recv_log := recv_log st; lmark := lmark st; closeCh := closeCh st; lreleased := lreleased st;
-     panic := panic st || done_panics (sess_of st s) |}.
+     hs_pending := hs_pending st; panic := panic st || done_panics (sess_of st s) |}.
 
 (* VARIANT used only to show that the ORDER of listener.Close's steps matters (not the code that exists):
    the same machine, but a Close call drains the backlog right after its CAS and closes closeCh only
@@ -344,7 +379,7 @@ Definition step_drain_first (st : state) (e : event) : state :=
       {| nsess := nsess st; sess_of := sess_of st; nwr := nwr st; wr := wr st; ncl := ncl st;
          cl_of := updf (cl_of st) k CDrain; cap := cap st;
          backlog := backlog st; delivered := delivered st; closing := closing st; aclosed := aclosed st;
-         enq_log := enq_log st; recv_log := recv_log st; lmark := true; closeCh := closeCh st; lreleased := lreleased st; panic := panic st |}
+         enq_log := enq_log st; recv_log := recv_log st; lmark := true; closeCh := closeCh st; lreleased := lreleased st; hs_pending := hs_pending st; panic := panic st |}
     | CDrain =>
       match backlog st with
       | [] => set_cl st k (if closeCh st then CRel else CSig)
@@ -354,7 +389,7 @@ Definition step_drain_first (st : state) (e : event) : state :=
       {| nsess := nsess st; sess_of := sess_of st; nwr := nwr st; wr := wr st; ncl := ncl st;
          cl_of := updf (cl_of st) k CRel; cap := cap st;
          backlog := backlog st; delivered := delivered st; closing := closing st; aclosed := aclosed st;
-         enq_log := enq_log st; recv_log := recv_log st; lmark := lmark st; closeCh := true; lreleased := lreleased st; panic := panic st |}
+         enq_log := enq_log st; recv_log := recv_log st; lmark := lmark st; closeCh := true; lreleased := lreleased st; hs_pending := hs_pending st; panic := panic st |}
     | _ => step st e
     end
   | _ => step st e
